@@ -755,6 +755,33 @@ fn main() {
             std::mem::forget(b);
             std::process::exit(0);
         }
+        // beans_seq: sequential lookups of one name, an init_bean for the same name, and a lookup again
+        "beans_seq" => {
+            use open_coroutine_core::common::beans::BeanFactory;
+            #[derive(Default)]
+            struct Bean(#[allow(dead_code)] u64);
+            let a = std::ptr::from_ref(BeanFactory::get_or_default::<Bean>("ocv-seq")) as usize;
+            let b = std::ptr::from_ref(BeanFactory::get_or_default::<Bean>("ocv-seq")) as usize;
+            BeanFactory::init_bean("ocv-seq", Bean(7));
+            let c = BeanFactory::get_bean::<Bean>("ocv-seq").map_or(0, |x| std::ptr::from_ref(x) as usize);
+            println!("{{\"second_lookup_same\": {}, \"after_init_bean_same\": {}}}", a == b, a == c);
+        }
+        // beans_names <len> <pos>: two names of <len> bytes that differ only at byte <pos>
+        "beans_names" => {
+            use open_coroutine_core::common::beans::BeanFactory;
+            #[derive(Default)]
+            struct Bean(#[allow(dead_code)] u64);
+            let (len, pos) = (num(2) as usize, num(3) as usize);
+            let n1: String = "a".repeat(len);
+            let mut n2 = n1.clone().into_bytes();
+            n2[pos] = b'b';
+            let n2 = String::from_utf8(n2).unwrap();
+            let a = std::ptr::from_ref(BeanFactory::get_or_default::<Bean>(&n1)) as usize;
+            let b = std::ptr::from_ref(BeanFactory::get_or_default::<Bean>(&n2)) as usize;
+            let a2 = BeanFactory::get_bean::<Bean>(&n1).map_or(0, |x| std::ptr::from_ref(x) as usize);
+            let b2 = BeanFactory::get_bean::<Bean>(&n2).map_or(0, |x| std::ptr::from_ref(x) as usize);
+            println!("{{\"different_instances\": {}, \"stable\": {}}}", a != b, a == a2 && b == b2);
+        }
         // local_drop <n>: store n values with a counting destructor in a coroutine-local, drop the local
         "local_drop" => {
             use std::sync::atomic::{AtomicUsize, Ordering};
